@@ -769,6 +769,24 @@ func F4() []*Case {
 		{Name: "Flag", Num: 7, T: dsl.Bool, JSONTag: dsl.S("elem")},
 		{Name: "Flags", Num: 8, T: dsl.Bool, Card: dsl.Map},
 	}}
+	// a nullable embedded message that itself embeds a nullable message (children of every kind two
+	// nullable embedded parents deep)
+	deepInner := &dsl.Message{Name: "DeepInner", Oneofs: []string{"Way"}, Fields: []*dsl.Field{
+		{Name: "DS", Num: 1, T: dsl.String},
+		{Name: "DL", Num: 2, T: dsl.String, Card: dsl.Repeated},
+		{Name: "DLeaf", Num: 3, T: dsl.Msg, Ref: "Leaf"},
+		{Name: "WayA", Num: 4, T: dsl.Int32, Oneof: "Way"},
+		{Name: "WayB", Num: 5, T: dsl.Msg, Ref: "Leaf", Oneof: "Way"},
+	}}
+	deepMid := &dsl.Message{Name: "DeepMid", Fields: []*dsl.Field{
+		{Name: "DeepInner", Num: 1, T: dsl.Msg, Ref: "DeepInner", Embed: true},
+		{Name: "MidName", Num: 2, T: dsl.String},
+	}}
+	deepRoot := &dsl.Message{Name: "Root", Fields: []*dsl.Field{
+		{Name: "DeepMid", Num: 1, T: dsl.Msg, Ref: "DeepMid", Embed: true},
+		{Name: "Tail", Num: 2, T: dsl.String},
+	}}
+	out = append(out, &Case{Label: "F4/nested-nullable-embeds", Family: "F4", Tags: map[string]string{"card": "embed", "vt": "nested-nullable-embeds", "class": "embedded", "pos": "P6>P6"}, File: newFile(deepRoot, deepMid, deepInner), Cfg: BaseConfig("Root")})
 	out = append(out, &Case{Label: "F4/value-named-siblings", Family: "F4", Tags: map[string]string{"card": "map", "vt": "value-named-siblings", "class": "scalar", "pos": "P0"}, File: newFile(named, sample, blob), Cfg: BaseConfig("Root")})
 	return out
 }
